@@ -74,6 +74,31 @@ def templates(g):
             for has_else in (True, False):
                 s = sif(conds[0], block([g.mk()]), [(c, block([g.mk()])) for c in conds[1:]], block([g.mk()]) if has_else else None)
                 out.append(block([s, g.mk()]))
+    # else-if chains in which ONE condition FAILS to evaluate (division by zero, an undefined name, a number where a truth value
+    # is needed): when the conditions before it are false the statement fails there — no later condition is evaluated, no branch
+    # (not the else either) runs, nothing after the statement runs; when an earlier condition is true it is never evaluated
+    def bad_cond(k):
+        if k == 0:
+            return mk_ecmp(">", emath(mk_mbin("/", mint(10), mvar("h.U8"))), emath(mint(1)))     # h.U8 = 0 in the generator's host
+        if k == 1:
+            return mk_ecmp("==", emath(mvar("undefined_name_c")), emath(mint(1)))
+        return emath(mint(5))
+    for n in (1, 2, 3):
+        for at in range(n + 1):
+            for earlier_true in (False, True):
+                for kind in (0, 1, 2):
+                    if earlier_true and at == 0:
+                        continue
+                    g.mark = 0
+                    conds = []
+                    for i in range(n + 1):
+                        if i == at:
+                            conds.append(bad_cond(kind))
+                        else:
+                            conds.append(emath(matom(const(kbool((earlier_true and i == at - 1) or (i > at))))))
+                    for has_else in (True, False):
+                        s = sif(conds[0], block([g.mk()]), [(c, block([g.mk()])) for c in conds[1:]], block([g.mk()]) if has_else else None)
+                        out.append(block([assign(("var", "h.U8"), "=", ("math", mint(0))), s, g.mk()]))
     # the iteration cap
     g.mark = 0
     out.append(block([sfor(assign(("var", "i"), "=", ("math", mint(0))), emath(matom(const(kbool(True)))),
@@ -155,7 +180,7 @@ def nontrivial(c, o):
 
 
 RULE = ("systematic: {for over a local, for over an injected struct field (every step evaluation observable in the host store), forRange with a local key, forRange whose key is an injected struct field} x {break, continue, return, none} x 5 nesting positions (loop body, inside if, else, else-if, nested loop) x 3 iteration indexes, with Mark calls making the executed path observable; "
-        "else-if chains of length 0-3 with every truth vector, with and without else; the 10,000-iteration cap (9,999 / 10,000 / unbounded); the four compound assignments on 8 target kinds (local, struct field, nested field by value and by pointer, map entries, slice elements); "
+        "else-if chains of length 0-3 with every truth vector, with and without else; chains of length 1-3 in which one condition (each position) fails to evaluate — division by zero, undefined name, a number as condition — behind false conditions or behind a true one; the 10,000-iteration cap (9,999 / 10,000 / unbounded); the four compound assignments on 8 target kinds (local, struct field, nested field by value and by pointer, map entries, slice elements); "
         "a local assigned two blocks deep read at top level; random statement trees of depth <= 3 (thorough 5) with ~5% wild constructs (non-boolean conditions, break outside loops, undefined locals); "
         "five driver-stated scenarios (forRange over a slice field that the body shrinks / grows through a host method: the indexes present at the start are visited once each; compound assignments whose right-hand side changes the target through a host method: the right-hand side is evaluated before the target is read); compared: outcome class, returned value, cited positions, the full sequence of calls with argument values and dynamic types, and the host objects afterwards; distinct non-trivial = distinct statement-tree shapes containing a loop or branch")
 
